@@ -39,7 +39,13 @@ def gen_case(r, k, same=None, long_=False):
         v = {}
         # "dz": distanceZ of one atom (value = z exactly, Jacobian force 0);
         # "dist": distance of an atom on the z axis from an atom at the origin (value r = z, Jacobian force 2kT/r)
-        v["kind"] = "dist" if r.random() < 0.3 else "dz"
+        # "lin2": a two-component variable c1*distanceZ(atom a) + c2*distanceZ(atom b) with coefficients (1,1) or (1,-1)
+        #         (linear combination: total force = sum_i c_i f_i / sum_i c_i^2, applied force c_i f to component i); the
+        #         generator puts atom b at z = +-1/4 and gives both atoms engine forces e and +-e, so that every
+        #         floating-point operation of the combination is exact and the one-variable model still ties bit-exactly
+        kk = r.random()
+        v["kind"] = "dist" if kk < 0.3 else ("lin2" if kk < 0.45 else "dz")
+        v["c2"] = r.choice([1.0, -1.0])
         v["onesite"] = r.random() < 0.5
         v["periodic"] = v["kind"] == "dz" and r.random() < (0.5 if nd == 1 else 0.25)
         v["w"] = r.choice(WIDTHS)
@@ -73,6 +79,22 @@ def gen_case(r, k, same=None, long_=False):
         nt *= v["nx"]
     c["scaled"] = r.random() < 0.25
     c["sfac"] = [r.choice([0.0, 0.25, 0.5, 0.5, 1.0, 2.0, -1.0]) for _ in range(nt)] if c["scaled"] else []
+    # inputPrefix: counts and gradients read from .count/.grad files before the first step
+    if r.random() < 0.25:
+        c["input"] = []       # one data set per prefix of the inputPrefix list
+        for _ in range(r.choice([1, 1, 2])):
+            icnt = [r.choice([0, 0, 1, 2, 3, 5, 8]) for _ in range(nt)]
+            c["input"].append({"cnt": icnt, "grad": [(V.dyadic(r, -4, 4, bits=2) if icnt[a] > 0 else 0.0) for a in range(nt) for _ in range(nd)]})
+    # applyBias switched at run time (cv bias a set apply_force 0|1) before some steps
+    c["toggle"] = r.random() < 0.2
+    # timeStepFactor k > 1 on the bias and its variables (only allowed with same-step total forces): they are
+    # awake at the steps that are multiples of k.  ORACLE ONLY: the Coq model has no timeStepFactor, these cases
+    # are not compared with it.  No restraint (its own timeStepFactor would be 1) and no run-time switching.
+    c["tsf"] = r.choice([2, 3]) if (same and r.random() < 0.12) else 1
+    if c["tsf"] > 1:
+        c["toggle"] = False
+        for v in vars_:
+            v["hk"] = None
     nsteps = r.randint(60, 160) if long_ else r.randint(6, 26)
     steps = []
     prev = None
@@ -108,8 +130,46 @@ def gen_case(r, k, same=None, long_=False):
                 es.append(V.dyadic(r, -8, 8, bits=3))
         steps.append({"z": zs, "e": es, "boundary": boundary})
         prev = zs
+    if c["toggle"]:
+        cur = c["apply"]
+        for st in steps[1:]:
+            if r.random() < 0.25:
+                cur = not cur
+            st["apply"] = cur
     c["steps"] = steps
     return c
+
+
+def apply_at(c, st):
+    """applyBias at a step: the configured value, or what the last `cv bias a set apply_force` left"""
+    return st.get("apply", c["apply"])
+
+
+def cv_applies(c, st, d):
+    """f_cv_apply_force of variable d at a step: some bias applies forces to it"""
+    return apply_at(c, st) or c["vars"][d]["hk"] is not None
+
+
+def inputs_of(c):
+    i = c.get("input")
+    return [] if not i else ([i] if isinstance(i, dict) else i)
+
+
+def input_grid_files(c, ds):
+    """<prefix>.count and <prefix>.grad in the multicolumn format (inputPrefix) of one data set"""
+    vs, nd = c["vars"], len(c["vars"])
+    hdr = ["# %d" % nd] + ["# %s %s %d %d" % (fmt(v["lower"]), fmt(v["w"]), v["nx"], 1 if v["periodic"] else 0) for v in vs] + [""]
+    lc, lg = list(hdr), list(hdr)
+    ix = [0] * nd
+    for a in range(len(ds["cnt"])):
+        rem = a
+        for d in range(nd - 1, -1, -1):
+            ix[d] = rem % vs[d]["nx"]
+            rem //= vs[d]["nx"]
+        xs = " ".join(fmt(v["lower"] + (i + 0.5) * v["w"]) for v, i in zip(vs, ix))
+        lc.append(xs + " %d" % ds["cnt"][a])
+        lg.append(xs + " " + " ".join(fmt(g) for g in ds["grad"][a * nd:(a + 1) * nd]))
+    return "\n".join(lc) + "\n", "\n".join(lg) + "\n"
 
 
 def colvar_value(v, z):
@@ -138,7 +198,7 @@ def atom_map(c):
     """1-based atom numbers of each variable: (main, None) for distanceZ, (moving atom, atom at the origin) for distance"""
     out, n = [], 0
     for v in c["vars"]:
-        if kind(v) == "dist":
+        if kind(v) in ("dist", "lin2"):
             out.append((n + 2, n + 1))
             n += 2
         else:
@@ -193,16 +253,23 @@ def scenario(c):
     nd = len(c["vars"])
     amap, natoms = atom_map(c)
     L = ["echo CASE %s" % c["id"], "natoms %d" % natoms, "samestep %d" % (1 if c["same"] else 0), "includecv 1",
-         "temperature %s" % fmt(c.get("T", 0.0)), "new", "config EOF"]
+         "temperature %s" % fmt(c.get("T", 0.0)), "prefix %s" % c["id"], "new", "config EOF"]
     for d, v in enumerate(c["vars"]):
         L += ["colvar {", "  name v%d" % d, "  lowerBoundary %s" % fmt(v["lower"]), "  upperBoundary %s" % fmt(v["upper"]),
               "  width %s" % fmt(v["w"])]
+        if c.get("tsf", 1) > 1:
+            L += ["  timeStepFactor %d" % c["tsf"]]
         if v["sub"]:
             L += ["  subtractAppliedForce on"]
         if kind(v) == "dist":
             L += ["  distance {", "    group1 { atomNumbers %d }" % amap[d][1], "    group2 { atomNumbers %d }" % amap[d][0]]
             if v.get("onesite"):
                 L += ["    oneSiteTotalForce on"]
+        elif kind(v) == "lin2":
+            L += ["  distanceZ {", "    main { atomNumbers %d }" % amap[d][0], "    ref { dummyAtom (0,0,0) }", "    axis (0,0,1)",
+                  "    oneSiteTotalForce on", "  }",
+                  "  distanceZ {", "    componentCoeff %s" % fmt(v["c2"]), "    main { atomNumbers %d }" % amap[d][1],
+                  "    ref { dummyAtom (0,0,0) }", "    axis (0,0,1)", "    oneSiteTotalForce on"]
         else:
             L += ["  distanceZ {", "    main { atomNumbers %d }" % amap[d][0], "    ref { dummyAtom (0,0,0) }", "    axis (0,0,1)",
                   "    oneSiteTotalForce on"]
@@ -216,10 +283,14 @@ def scenario(c):
         abf += ["  maxForce " + " ".join(fmt(m) for m in c["maxf"])]
     if c["szd"]:
         abf += ["  stepZeroData on"]
+    if c.get("tsf", 1) > 1:
+        abf += ["  timeStepFactor %d" % c["tsf"]]
     if c["hideJ"]:
         abf += ["  hideJacobian on"]
     if c.get("scaled"):
         abf += ["  scaledBiasingForce on", "  scaledBiasingForceFactorsGrid %s.sf" % c["id"]]
+    if inputs_of(c):
+        abf += ["  inputPrefix " + " ".join("%s_in%d" % (c["id"], n) for n in range(len(inputs_of(c))))]
     abf += ["}"]
     harm = []
     hv = [d for d, v in enumerate(c["vars"]) if v["hk"] is not None]
@@ -229,20 +300,32 @@ def scenario(c):
                  "  forceConstant %s" % fmt(v["hk"]), "}"]
     L += (abf + harm) if c["abf_first"] else (harm + abf)
     L += ["EOF", "show cv 0 energy 0 bias 0 atomf 0"]
+    cur_apply = c["apply"]
     for st in c["steps"]:
         for d in range(nd):
             a, a0 = amap[d]
             L.append("pos %d 0 0 %s" % (a, V.hexf(st["z"][d])))
             L.append("eforce %d 0 0 %s" % (a, V.hexf(st["e"][d])))
-            if a0 is not None:     # the partner atom of a distance stays at the origin and feels the opposite force
+            if a0 is not None and kind(c["vars"][d]) == "lin2":
+                # value = z_a + c2 * z_b with z_b = c2/4: z_a = value - 1/4; both components feel the variable force e
+                c2 = c["vars"][d]["c2"]
+                L[-2] = "pos %d 0 0 %s" % (a, V.hexf(st["z"][d] - 0.25))
+                L.append("pos %d 0 0 %s" % (a0, V.hexf(0.25 * c2)))
+                L.append("eforce %d 0 0 %s" % (a0, V.hexf(c2 * st["e"][d])))
+            elif a0 is not None:     # the partner atom of a distance stays at the origin and feels the opposite force
                 L.append("pos %d 0 0 0" % a0)
                 L.append("eforce %d 0 0 %s" % (a0, V.hexf(-st["e"][d])))
+        if apply_at(c, st) != cur_apply:
+            cur_apply = apply_at(c, st)
+            L.append("script cv bias a set apply_force %d" % (1 if cur_apply else 0))
         if st["boundary"]:
             L.append("runboundary")
         L.append("step")
         L.append("dumpabf a")
     # second observation channel: the ABF block of the saved state (samples / gradient = value_output)
     L.append("save text %s.state" % c["id"])
+    # third channel: the <prefix>.count / <prefix>.grad files written at the end of the run
+    L.append("postrun")
     return L
 
 
@@ -252,7 +335,7 @@ def model_case(c):
     parts = ["ABF", str(nd)]
     parts += [V.hexf(v["lower"]) for v in vs] + [V.hexf(v["w"]) for v in vs] + [str(v["nx"]) for v in vs]
     parts += ["1" if v["periodic"] else "0" for v in vs]
-    parts += [str(c["full"]), str(c["min"]), str(int(c["apply"])), str(int(c["update"])), str(int(c["cap"]))]
+    parts += [str(c["full"]), str(c["min"]), str(int(c["update"])), str(int(c["cap"]))]
     parts += [V.hexf(m) for m in c["maxf"]]
     parts += [str(int(c["szd"])), str(int(c["same"]))] + [str(int(v["sub"])) for v in vs]
     parts += [str(int(c["hideJ"]))]
@@ -261,13 +344,16 @@ def model_case(c):
     for v in vs:
         nt *= v["nx"]
     parts += [str(int(bool(c.get("scaled"))))] + [V.hexf(x) for x in (c["sfac"] if c.get("scaled") else [1.0] * nt)]
+    parts += [str(len(inputs_of(c)))]
+    for ds in inputs_of(c):
+        parts += [str(x) for x in ds["cnt"]] + [V.hexf(g) for g in ds["grad"]]
     parts += [str(len(c["steps"]))]
     for st in c["steps"]:
         parts += [V.hexf(colvar_value(v, z)) for v, z in zip(vs, st["z"])]
         parts += [V.hexf(e) for e in st["e"]]
         parts += [V.hexf(o) for o in other_forces(c, st)]
         parts += [V.hexf(j) for j in jac_forces(c, st)]
-        parts += [str(int(st["boundary"]))]
+        parts += [str(int(st["boundary"])), str(int(apply_at(c, st)))]
     return " ".join(parts)
 
 
@@ -381,7 +467,7 @@ def expected_samples(c):
             continue
         if c["same"]:
             rel, cont = clk[t]
-            elig = (rel > 0 and not cont) or c["szd"]
+            elig = ((rel > 0 and not cont) or c["szd"]) and rel % c.get("tsf", 1) == 0
         else:
             if t + 1 >= n:
                 continue
@@ -418,7 +504,7 @@ def expected_abf_force(c, st, cnt, sm):
     """applied ABF force from the implementation's own arrays (exact)"""
     nd = len(c["vars"])
     ix = bin_of(c, st)
-    if not c["apply"] or not in_grid(c, ix):
+    if not apply_at(c, st) or not in_grid(c, ix):
         return [Fr(0)] * nd
     a = address(c, ix)
     N = cnt[a]
@@ -490,7 +576,21 @@ def parse_state(path):
         return None
 
 
-def oracle(c, impl_steps, state=None):
+def parse_multicol(path, nd, mult):
+    """values of a multicolumn grid file (colvar_grid::write_multicol): per line nd coordinates then mult values"""
+    try:
+        out = []
+        for l in open(path):
+            w = l.split()
+            if not w or w[0].startswith("#"):
+                continue
+            out += [float(x) for x in w[nd:nd + mult]]
+        return out
+    except (OSError, ValueError):
+        return None
+
+
+def oracle(c, impl_steps, state=None, files=None):
     """property oracle on the implementation's output alone; returns list of (signature, text)"""
     bad = []
     nd = len(c["vars"])
@@ -500,22 +600,38 @@ def oracle(c, impl_steps, state=None):
     if len(impl_steps) != len(c["steps"]):
         return [("oracle:steps", "implementation reported %d steps of %d" % (len(impl_steps), len(c["steps"])))]
     # applied force at every step
+    tsf = c.get("tsf", 1)
+    clk_ = clocks(c)
     for t, (st, f) in enumerate(zip(c["steps"], impl_steps)):
+        if clk_[t][0] % tsf != 0:
+            # bias and variables asleep: nothing is computed and nothing may be applied
+            if any(x != 0.0 for x in f["af"]):
+                bad.append(("oracle:af", "step %d: timeStepFactor %d, the variables are asleep but apply the force %s" % (t, tsf, f["af"])))
+                break
+            continue
         exp = expected_abf_force(c, st, f["cnt"], f["sum"])
         if not all(close(a, b) for a, b in zip(exp, f["cf"])):
             bad.append(("oracle:cf", "step %d: ABF force %s, but ramp(count)*mean(-force) [zero-mean, cap] of the stored arrays gives %s"
                         % (t, f["cf"], [float(x) for x in exp])))
             break
         o = other_forces(c, st)
-        jj = [(j if c["hideJ"] else 0.0) for j in jac_forces(c, st)]
+        # the hidden Jacobian force is compensated only by a variable that applies forces
+        jj = [(j if c["hideJ"] and cv_applies(c, st, d) else 0.0) for d, j in enumerate(jac_forces(c, st))]
         sf = scale_factor(c, st)
-        if not all(close(Fr(a) * sf + Fr(b) - Fr(j), g) for a, b, j, g in zip(f["cf"], o, jj, f["af"])):
-            bad.append(("oracle:af", "step %d: force applied to the variables %s is not ABF force %s * scaling factor %s + restraint force %s - hidden Jacobian force %s" % (t, f["af"], f["cf"], float(sf), o, jj)))
+        # impulse multiple time stepping: the force applied at an awake step is multiplied by timeStepFactor
+        if not all(close(Fr(a) * sf * tsf + Fr(b) - Fr(j) * tsf, g) for a, b, j, g in zip(f["cf"], o, jj, f["af"])):
+            bad.append(("oracle:af", "step %d: force applied to the variables %s is not (ABF force %s * scaling factor %s - hidden Jacobian force %s) * timeStepFactor %d + restraint force %s" % (t, f["af"], f["cf"], float(sf), jj, tsf, o)))
             break
     # final arrays = attributed samples
     smp = expected_samples(c)
     cnt = [0] * nt
     sm = [Fr(0)] * (nt * nd)
+    for ds in inputs_of(c):
+        # inputPrefix: counts read, and gradient read * count read, of every data set
+        for a in range(nt):
+            cnt[a] += ds["cnt"][a]
+        for i in range(nt * nd):
+            sm[i] += Fr(ds["grad"][i]) * ds["cnt"][i // nd]
     for a, F, t in smp:
         cnt[a] += 1
         for d in range(nd):
@@ -533,7 +649,10 @@ def oracle(c, impl_steps, state=None):
         hj = [d for d in jvar if c["same"] and not c["vars"][d]["sub"]]
         # hideJacobian, lagged forces, no bias applies a force to the variable (applyBias off, no restraint): the
         # compensating force -fj never reaches the atoms but fj is added to / f_old subtracted from the measured force
-        hn = [d for d in jvar if not c["same"] and not c["apply"] and c["vars"][d]["hk"] is None]
+        hn = [d for d in jvar if not c["same"] and not c["apply"] and not c.get("toggle") and c["vars"][d]["hk"] is None]
+        # hideJacobian, lagged forces, applyBias switched at run time on a distance variable without another bias:
+        # collect_cvc_total_forces looks at f_cv_apply_force of the current step for the force of the previous one
+        hs = [d for d in jvar if not c["same"] and c.get("toggle") and c["vars"][d]["hk"] is None]
         if zt:
             sig, why = "sample:subtractAppliedForce-zero-total-force", " (measured total force exactly zero at (step,variable) %s)" % zt[:3]
         elif vz:
@@ -542,6 +661,10 @@ def oracle(c, impl_steps, state=None):
             sig, why = "sample:hideJacobian-same-step-adds-jacobian", " (hideJacobian, same-step forces, distance variable(s) %s)" % hj
         elif hn and len(hn) == len(dbad):
             sig, why = "sample:hideJacobian-without-applied-force", " (hideJacobian, lagged forces, no bias applies a force to distance variable(s) %s)" % hn
+        elif hs and len(hs) == len(dbad):
+            sig, why = "sample:hideJacobian-applyBias-switched", " (hideJacobian, lagged forces, applyBias switched at run time, distance variable(s) %s)" % hs
+        elif c.get("toggle") and not c["same"] and all(not c["vars"][d]["sub"] for d in dbad):
+            sig, why = "sample:applyBias-switched-stale-applied-force", " (applyBias switched at run time, lagged forces)"
         elif c.get("scaled") and not c["same"] and c["apply"] and all(not c["vars"][d]["sub"] for d in dbad):
             sig, why = "sample:scaledBiasingForce-unscaled-force-subtracted", " (scaledBiasingForce on, lagged forces)"
         else:
@@ -562,6 +685,12 @@ def oracle(c, impl_steps, state=None):
                 bad.append(("oracle:state-samples", "'samples' of the saved state %s differ from the number of attributed samples per bin %s" % (scnt, cnt)))
             elif len(sgrad) != len(mean) or not all(close(a, b, 1e-12) for a, b in zip(mean, sgrad)):
                 bad.append(("oracle:state-gradient", "'gradient' of the saved state %s is not minus the mean of the attributed samples %s" % (sgrad, [float(x) for x in mean])))
+        if files is not None:
+            fcnt, fgrad = files
+            if fcnt is None or [int(x) for x in fcnt] != cnt:
+                bad.append(("oracle:file-count", "the .count file written at the end of the run %s differs from the number of attributed samples per bin %s" % (fcnt, cnt)))
+            elif fgrad is None or len(fgrad) != len(mean) or not all(close(a, b, 1e-9) for a, b in zip(mean, fgrad)):
+                bad.append(("oracle:file-gradient", "the .grad file written at the end of the run %s is not minus the mean of the attributed samples %s" % (fgrad, [float(x) for x in mean])))
     return bad
 
 
@@ -684,7 +813,7 @@ def judge_hidej_same(c, steps):
 
 
 def witness_hidej_noforce():
-    """W5 (known defect): hideJacobian, lagged forces, applyBias off, no other bias, distance variable: the samples must be
+    """W5 (repaired in fix-C04-2): hideJacobian, lagged forces, applyBias off, no other bias, distance variable: the samples must be
     the engine force 1 (Jacobian hidden); the implementation records 1 + fj."""
     v = _v1(kind="dist", onesite=False, lower=1.0, upper=3.0)
     return _c1("W5", v, [(1.5, 1.0, False)] * 3, same=False, apply=False, hideJ=True, T=1000.0)
@@ -715,6 +844,58 @@ def judge_scaled(c, steps):
     return None
 
 
+def witness_toggle():
+    """E7: applyBias switched off before step 2 and on again before step 4, lagged forces, minSamples 0, fullSamples 1, engine
+    force 2 at every step: five samples of 2 (a stale previous_colvar_forces would be subtracted at step 3)."""
+    c = _c1("W8", _v1(), [(0.5, 2.0, False)] * 6, full=1, min=0, apply=True, toggle=True)
+    for t, a in enumerate([True, True, False, False, True, True]):
+        c["steps"][t]["apply"] = a
+    return c
+
+
+def judge_toggle(c, steps):
+    got, n = steps[-1]["sum"][0], steps[-1]["cnt"][0]
+    if n != 5 or got != -10.0:
+        return ("applyBias on, switched off before step 2 (cv bias a set apply_force 0) and on again before step 4, lagged total forces, engine force 2 at every "
+                "step: five samples of 2, stored sum -10; the implementation stores %s with count %s (after the switch the bias keeps subtracting the last "
+                "force it applied: previous_colvar_forces is not reset)" % (got, n))
+    return None
+
+
+def witness_hidej_switched():
+    """W7 (known defect): hideJacobian, lagged forces, distance variable, applyBias on at step 0 and switched off before step 1."""
+    v = _v1(kind="dist", onesite=False, lower=1.0, upper=3.0)
+    c = _c1("W7", v, [(1.5, 1.0, False)] * 3, same=False, apply=True, hideJ=True, T=1000.0, toggle=True)
+    for t, a in enumerate([True, False, False]):
+        c["steps"][t]["apply"] = a
+    return c
+
+
+def judge_hidej_switched(c, steps):
+    got, n = steps[-1]["sum"][0], steps[-1]["cnt"][0]
+    fj = jac_force(c, c["vars"][0], 1.5)
+    if n != 2 or not close(got, -2.0):
+        return ("hideJacobian on, lagged total forces, distance r = 1.5 at T = 1000 K (fj = %s), engine force 1, applyBias on at step 0 and switched off before "
+                "step 1: the force measured for step 0 contains the compensation -fj, the two samples must be 1 (stored sum -2); the implementation stores %s with "
+                "count %s: collect_cvc_total_forces decides from f_cv_apply_force at step 1 whether -fj is contained in the force of step 0" % (fj, got, n))
+    return None
+
+
+def witness_input():
+    """inputPrefix with two prefixes: counts (3, 0) with gradients (-1.5, 0) and counts (1, 2) with gradients (0.5, 1), then two
+    samples of 2 in bin 0 and one of 1 in bin 1 (same-step)."""
+    return _c1("W9", _v1(), [(0.5, 0.0, False), (0.5, 2.0, False), (0.5, 2.0, False), (1.5, 1.0, False)], same=True, apply=True,
+               full=4, min=0, input=[{"cnt": [3, 0], "grad": [-1.5, 0.0]}, {"cnt": [1, 2], "grad": [0.5, 1.0]}])
+
+
+def judge_input(c, steps):
+    last = steps[-1]
+    if last["cnt"] != [6, 3] or last["sum"] != [-8.0, 1.0]:
+        return ("inputPrefix with two prefixes, counts (3, 0) / gradients (-1.5, 0) and counts (1, 2) / gradients (0.5, 1), then samples 2, 2 in bin 0 and 1 "
+                "in bin 1: counts must be (6, 3) and sums (-1.5*3 + 0.5*1 - 4, 1*2 - 1) = (-8, 1); the implementation has counts %s and sums %s" % (last["cnt"], last["sum"]))
+    return None
+
+
 WITNESSES = ((witness_zero_total, "sample:subtractAppliedForce-zero-total-force", judge_zero_total),
              (witness_zero_total_abf, "sample:subtractAppliedForce-zero-total-force", judge_zero_total_abf),
              (witness_value_zero, "sample:force-dropped-at-value-zero", judge_value_zero),
@@ -722,7 +903,10 @@ WITNESSES = ((witness_zero_total, "sample:subtractAppliedForce-zero-total-force"
              (witness_zero_mean_ramp, "force:periodic-zero-mean-during-ramp", judge_zero_mean_ramp),
              (witness_hidej_same, "sample:hideJacobian-same-step-adds-jacobian", judge_hidej_same),
              (witness_hidej_noforce, "sample:hideJacobian-without-applied-force", judge_hidej_noforce),
-             (witness_scaled, "sample:scaledBiasingForce-unscaled-force-subtracted", judge_scaled))
+             (witness_scaled, "sample:scaledBiasingForce-unscaled-force-subtracted", judge_scaled),
+             (witness_toggle, "sample:applyBias-switched-stale-applied-force", judge_toggle),
+             (witness_hidej_switched, "sample:hideJacobian-applyBias-switched", judge_hidej_switched),
+             (witness_input, "sample:inputPrefix-data", judge_input))
 
 
 # ------------------------------------------------------------------------------- running
@@ -733,6 +917,12 @@ def run_batch(exe, cases, d, tag):
         if c.get("scaled"):
             with open(os.path.join(d, "%s.sf" % c["id"]), "w") as f:
                 f.write(scaling_grid_file(c))
+        for n, ds in enumerate(inputs_of(c)):
+            tc, tg = input_grid_files(c, ds)
+            with open(os.path.join(d, "%s_in%d.count" % (c["id"], n)), "w") as f:
+                f.write(tc)
+            with open(os.path.join(d, "%s_in%d.grad" % (c["id"], n)), "w") as f:
+                f.write(tg)
     sc = os.path.join(d, "batch_%s.scn" % tag)
     with open(sc, "w") as f:
         f.write("\n".join(lines) + "\n")
@@ -741,6 +931,9 @@ def run_batch(exe, cases, d, tag):
     for c in cases:
         if str(c["id"]) in res:
             res[str(c["id"])]["state"] = parse_state(os.path.join(d, "%s.state" % c["id"]))
+            nd_ = len(c["vars"])
+            res[str(c["id"])]["files"] = (parse_multicol(os.path.join(d, "%s.count" % c["id"]), nd_, 1),
+                                          parse_multicol(os.path.join(d, "%s.grad" % c["id"]), nd_, nd_))
     return rc, res, e
 
 
@@ -763,6 +956,8 @@ SHOWN = ("bin", "fbin", "cf", "tf", "af", "cnt", "sum", "go")
 
 def tie_case(run, c, im, mline):
     """implementation vs model, step by step, every field bit-exact"""
+    if c.get("tsf", 1) > 1:
+        return      # timeStepFactor is not in the model: these cases are judged by the oracle alone
     steps_i = im["steps"]
     msteps, spec = parse_model(mline) if mline is not None else ([], None)
     if len(msteps) != len(steps_i):
@@ -861,11 +1056,15 @@ def check(run):
         run.dist("restrained_vars", sum(1 for v in c["vars"] if v["hk"] is not None))
         run.dist("distance_vars_with_jacobian", sum(1 for v in c["vars"] if kind(v) == "dist" and c.get("T", 0.0) != 0.0))
         run.dist("hideJacobian", 1 if c["hideJ"] else 0)
+        run.dist("two_component_vars", sum(1 for v in c["vars"] if kind(v) == "lin2"))
         run.dist("scaledBiasingForce", 1 if c.get("scaled") else 0)
+        run.dist("inputPrefix_datasets", len(inputs_of(c)))
+        run.dist("applyBias_switched_at_run_time", 1 if c.get("toggle") else 0)
+        run.dist("timeStepFactor>1 (oracle only)", 1 if c.get("tsf", 1) > 1 else 0)
         if im.get("state") is not None:
             nstate += 1
         # property oracle on the implementation alone
-        for sig, text in oracle(c, steps_i, im.get("state")):
+        for sig, text in oracle(c, steps_i, im.get("state"), im.get("files")):
             run.violation(sig, "case %s: %s" % (c["id"], text), {"kind": "case", "case": c})
         if im.get("state") is None:
             run.mismatch("abf:state-file", {"case": c}, None, "a text state with an abf block")
@@ -890,7 +1089,7 @@ def run_witnesses(run, unit, model, d):
         if text:
             run.violation(sig, "scenario %s (minimal input of an earlier defect; the cause given in parentheses is the one found then): %s" % (c["id"], text),
                           {"kind": "case", "case": c})
-        for s_, t_ in oracle(c, im["steps"], im.get("state")):
+        for s_, t_ in oracle(c, im["steps"], im.get("state"), im.get("files")):
             run.violation(s_, "case %s: %s" % (c["id"], t_), {"kind": "case", "case": c})
         ml = V.run_lines(model, [model_case(c)])[1]
         tie_case(run, c, im, ml[0] if ml else None)
@@ -919,7 +1118,7 @@ def replay(path):
                 print("step %d model: %s" % (t, ms[t]))
         print("state file:", im.get("state"))
         print("spec (attributed samples):", spec)
-        print("oracle:", oracle(c, im["steps"], im.get("state")))
+        print("oracle:", oracle(c, im["steps"], im.get("state"), im.get("files")))
         for wf, sig, judge in WITNESSES:
             if wf()["id"] == c["id"] and len(im["steps"]) == len(c["steps"]):
                 print("judge:", judge(c, im["steps"]))
